@@ -714,6 +714,11 @@ def ev_colmap(case, ctx):
             AeRes.make_residual(f, p1, r1, colmap=kw)
             a0 = np.array(fits.getdata(r0)) if os.path.exists(r0) else None
             a1 = np.array(fits.getdata(r1)) if os.path.exists(r1) else None
+            masked = {}
+            for mname, mkw in (("sigma=4", dict(sigma=4)), ("sigma=12", dict(sigma=12)), ("frac=0.5", dict(frac=0.5))):
+                AeRes.make_residual(f, p0, r0, mask=True, **mkw)
+                AeRes.make_residual(f, p1, r1, mask=True, colmap=kw, **mkw)
+                masked[mname] = (np.isnan(np.array(fits.getdata(r0))), np.isnan(np.array(fits.getdata(r1))))
         except Exception as e:
             ctx.violation("load_sources/make_residual raised %r with %r (%s)" % (e, kw, sig), "raise|" + sig)
             ctx.outcome("colmap:raise")
@@ -730,6 +735,14 @@ def ev_colmap(case, ctx):
         ctx.violation("make_residual(colmap=%r) differs from the run on default column names by %.4g (%s)" % (
             kw, float(np.nanmax(np.abs(a0.astype(float) - a1))), sig), "colmap_residual|" + sig)
         ok = False
+    for mname, (b0, b1) in masked.items():
+        if not b0.any():
+            ctx.violation("mask mode (%s) on default column names blanks nothing in the colmap scene (%s)" % (mname, sig), "colmap_mask_empty|" + sig)
+            ok = False
+        if not np.array_equal(b0, b1):
+            ctx.violation("mask mode (%s): make_residual(colmap=%r) blanks %d pixels, the run on default column names %d (%s)" % (
+                mname, kw, int(b1.sum()), int(b0.sum()), sig), "colmap_mask|" + sig)
+            ok = False
     ctx.outcome("colmap:same" if ok else "colmap:differs")
 
 
